@@ -31,7 +31,8 @@ PROPERTIES = {
              'required_probes': ['probe.worker_not0_read_first', 'probe.later_frame_read_during_eval', 'probe.fewer_frames_than_threads',
                                  'probe.eof_seen_by_two', 'probe.three_tasks_blocked', 'probe.slow_evaluation']},
             {'name': 'c05_stat', 'quick': 3000, 'thorough': 400000, 'san': 20000, 'chunk': 500,
-             'required_probes': ['probe.outputs_compared', 'probe.block_files_written', 'probe.fewer_frames_than_threads', 'probe.three_tasks_blocked', 'probe.eof_seen']},
+             'required_probes': ['probe.outputs_compared', 'probe.block_files_written', 'probe.fewer_frames_than_threads', 'probe.three_tasks_blocked', 'probe.eof_seen',
+                                 'probe.reader_lammps_dump', 'probe.reader_gro', 'probe.reader_pdb', 'probe.reader_xyz', 'probe.reader_dlpoly_history']},
             {'name': 'c05_prdf', 'quick': 1500, 'thorough': 200000, 'san': 10000, 'chunk': 500,
              'required_probes': ['probe.outputs_compared', 'probe.block_files_written', 'probe.three_tasks_blocked']},
             {'name': 'c05_tmpl', 'quick': 1000, 'thorough': 100000, 'san': 10000, 'chunk': 500,
@@ -47,7 +48,7 @@ PROPERTIES = {
             'real_tools': ['c05_stat: csg/src/tools/csg_stat.cc + csg_stat_imc.cc (ordered)', 'c05_prdf: csg/src/csgapps/partial_rdf/*.cc (ordered)',
                            'c05_tmpl: csg/share/template/template_threaded.cc (ordered)', 'c05_orient: csg/src/csgapps/orientcorr/orientcorr.cc (unordered)',
                            'c05_reupd: csg/src/tools/csg_reupdate.cc (unordered)',
-                           'each with its real main() (renamed at compile time), the real XML topology reader, mapping, neighbour search and the real LAMMPS dump / GRO trajectory readers behind a decorator that adds enter/leave monitors and decision points'],
+                           'each with its real main() (renamed at compile time), the real XML topology reader, mapping, neighbour search and the real LAMMPS dump / GRO / PDB / XYZ / DL_POLY HISTORY trajectory readers behind a decorator that adds enter/leave monitors and decision points'],
             'stub': ['c05_lib: application subclass, worker, synthetic .simtop/.simtrj readers are harness code',
                      'pthread_create/join/exit/mutex_*: simulated (tasks = ucontext coroutines, mutex = bit + waiters, glibc default-mutex semantics without owner check)'],
         },
